@@ -55,7 +55,7 @@ def run(ctx):
         if ctx.thorough():
             shard = max(shard, (len(terms) + 31) // 32)
         total += len(terms)
-        bad, err = vf.coq_cases(ctx, tag, ['Wf.Calls', 'Wf.CallsObs'], typ, fn, terms, shard=shard)
+        bad, err = vf.coq_cases(ctx, tag, ['Wf.Calls', 'Wf.RequiredExpr', 'Wf.CallsObs'], typ, fn, terms, shard=shard)
         if err:
             ctx.broken.append('correspondence cases (%s) did not evaluate: %s' % (name, err[-400:]))
         if bad:
